@@ -28,11 +28,21 @@ import (
 	"time"
 )
 
-const (
-	verifDir = "/verif"
-	repoDir  = "/repo"
-	goBin    = "/opt/veriftools/go1.26.8/bin"
+const goBin = "/opt/veriftools/go1.26.8/bin"
+
+// verifDir and repoDir are /verif and /repo; VERIF_DIR and VERIF_REPO override
+// them for background sweeps that run from a snapshot (vp run --with-repo).
+var (
+	verifDir = envOr("VERIF_DIR", "/verif")
+	repoDir  = envOr("VERIF_REPO", "/repo")
 )
+
+func envOr(name, def string) string {
+	if v := os.Getenv(name); v != "" {
+		return v
+	}
+	return def
+}
 
 func goEnv() []string {
 	env := os.Environ()
